@@ -79,6 +79,7 @@ type parent struct {
 	results  map[int]*Result
 	handed   int
 	drains   int
+	groups   map[int]*groupRes // forward groups: shared (plugin-global) servers
 }
 
 // lockKeys: every loopback address the case may legitimately contact. Cases
@@ -149,9 +150,20 @@ func (p *parent) nextSet() *JobSet {
 
 	set := &JobSet{SharedTLS: unit[0].GroupKind == "shared-tlsconfig"}
 	var owner *caseRes
+	var grp *groupRes
+	if unit[0].GroupKind == "forward" {
+		grp = newGroupRes(unit[0].Group, unit[0])
+		set.Forward = &FwdGlobal{Socks5: grp.socksAddr, Bootstrap: grp.bootAddr, BootVer: unit[0].GlobalBootVer, SoMark: groupMarkBase + unit[0].Group}
+		p.mu.Lock()
+		p.groups[unit[0].Group] = grp
+		p.mu.Unlock()
+	}
 	for _, c := range unit {
 		e := c.expect()
-		cr := &caseRes{c: c, exp: e, ca: p.ca}
+		cr := &caseRes{c: c, exp: e, ca: p.ca, grp: grp}
+		if grp != nil {
+			grp.members = append(grp.members, cr)
+		}
 		if c.GroupKind == "same-host" {
 			// one bootstrap server for the whole group
 			if owner == nil {
@@ -168,8 +180,12 @@ func (p *parent) nextSet() *JobSet {
 		if e.Reachable {
 			to = 1500
 		}
-		set.Jobs = append(set.Jobs, Job{ID: c.ID, Addr: c.Addr, DialAddr: c.DialAddr, Socks5: cr.socksAddr,
-			Bootstrap: cr.bootAddr, BootVer: c.BootVer, TimeoutMS: to})
+		job := Job{ID: c.ID, Addr: c.Addr, DialAddr: c.DialAddr, Socks5: cr.socksAddr,
+			Bootstrap: cr.bootAddr, BootVer: c.BootVer, TimeoutMS: to, SoMark: c.ID + 1}
+		if c.Socks5Opt != "" {
+			fwdJob(&job, c, cr)
+		}
+		set.Jobs = append(set.Jobs, job)
 	}
 	return set
 }
@@ -199,6 +215,14 @@ func (p *parent) finish(results []Result) {
 		inFlight := strings.Contains(res.ExchErr, "context deadline exceeded") || strings.Contains(res.ExchErr, "context canceled")
 		if (cr.c.Scheme == "https" || cr.c.Scheme == "h3") && !cr.c.AmbigPort && res.NewErr == "" && !res.ReplyOK && inFlight {
 			drain = true
+		}
+	}
+	if len(unit) > 0 && unit[0].GroupKind == "forward" {
+		p.mu.Lock()
+		g := p.groups[unit[0].Group]
+		p.mu.Unlock()
+		if g != nil {
+			g.close()
 		}
 	}
 	keys := unitKeys(unit)
@@ -292,6 +316,9 @@ func (p *parent) runTraced(tmp string, deadline time.Duration) (*traceResult, st
 		"--seccomp-bpf", "-o", logPath,
 		self, "-child", "-sock", sockPath, "-ca", caFile, "-workers", strconv.Itoa(childWorkers)}
 	cmd := exec.Command(strace, args...)
+	// the forward plugin builds its own tls.Config without RootCAs: the harness CA
+	// is made the child's only system root
+	cmd.Env = append(os.Environ(), "SSL_CERT_FILE="+caFile, "SSL_CERT_DIR="+filepath.Join(tmp, "no-such-dir"))
 	cmd.Stdout = errFile
 	cmd.Stderr = errFile
 	cmd.SysProcAttr = &syscall.SysProcAttr{Pdeathsig: syscall.SIGKILL, Setpgid: true}
@@ -459,6 +486,16 @@ func judge(c *Case, e Expect, res *Result, cr *caseRes, evs []destEvent, own map
 		if ev.Dest == bootAP {
 			continue
 		}
+		if c.socksIgnored() && socksAP.IsValid() && ev.Dest == socksAP {
+			// the option is documented as not implemented for this scheme: no
+			// connection of the upstream may be moved to the proxy
+			if !seenBad[ev.Dest.String()] {
+				seenBad[ev.Dest.String()] = true
+				add("dest-redirected-to-ignored-socks5", c.formKey(), "%s(%s socket of this upstream) went to the socks5 proxy %s (%s); socks5 is documented as not implemented for %s upstreams, the configured destination is %v",
+					ev.Syscall, ev.Sock, ev.Dest, socksOrigin(c), schemeName(c.Scheme), e.Dests)
+			}
+			continue
+		}
 		ok := false
 		for _, d := range e.Dests {
 			if d == ev.Dest {
@@ -507,6 +544,16 @@ func judge(c *Case, e Expect, res *Result, cr *caseRes, evs []destEvent, own map
 
 	// (2) SOCKS5 CONNECT destination
 	for _, so := range o.Socks {
+		if c.Via != "socks5" {
+			// a request at the decoy proxy of a scheme that ignores socks5
+			if own["STREAM/"+strconv.Itoa(so.RemotePort)] {
+				add("dest-redirected-to-ignored-socks5", c.formKey(), "the socks5 proxy %s (%s) received CONNECT %q port %d from this upstream's source port %d; socks5 is documented as not implemented for %s upstreams",
+					cr.socksAddr, socksOrigin(c), so.Host, so.Port, so.RemotePort, schemeName(c.Scheme))
+			} else {
+				rep.Count("decoy_proxy_requests_of_foreign_origin_ignored", 1)
+			}
+			continue
+		}
 		hostOK, portOK := false, false
 		if e.NetIsName {
 			hostOK = so.Atyp == "domain" && strings.EqualFold(so.Host, e.NetName)
@@ -579,6 +626,12 @@ func judge(c *Case, e Expect, res *Result, cr *caseRes, evs []destEvent, own map
 		rep.Count("cases_names_not_judged_own_connection_misdirected", 1)
 		return finishJudge(c, e, res, probs, matched)
 	}
+	if skipNames[c.ID] {
+		// a sibling on the same forward plugin sent its connections somewhere else
+		// (reported on that sibling): what arrives here may be the sibling's
+		rep.Count("cases_names_not_judged_sibling_misdirected", 1)
+		return finishJudge(c, e, res, probs, matched)
+	}
 	if c.AmbigPort {
 		// the written host itself is open to several readings: names are not judged
 		rep.Count("ambiguous_literal_cases_tls_names_not_judged", 1)
@@ -649,6 +702,17 @@ func judge(c *Case, e Expect, res *Result, cr *caseRes, evs []destEvent, own map
 	}
 
 	return finishJudge(c, e, res, probs, matched)
+}
+
+// skipNames: members of forward groups in which some member's connections went to
+// a foreign destination.
+var skipNames = map[int]bool{}
+
+func socksOrigin(c *Case) string {
+	if c.Socks5Opt == "global" {
+		return "plugin-global socks5 option"
+	}
+	return "socks5 option of this upstream"
 }
 
 // foreignDests lists the kernel-level destinations of a case that are neither
@@ -737,7 +801,13 @@ func main() {
 		"(one shared *tls.Config without ServerName and different url hosts / same host name + same bootstrap server and different scheme or port), each member judged on its own expectation. A case is non-trivial when " +
 		"it must be rejected and NewUpstream's verdict was observed, or when NewUpstream accepted it and at least one " +
 		"destination it produced was positively observed (traced sockaddr on a socket carrying the case's SO_MARK, SOCKS5 CONNECT, bootstrap question) and compared; " +
-		"distinct = distinct (addr, dial_addr, proxy/bootstrap mode) inputs")
+		"distinct = distinct (addr, dial_addr, proxy/bootstrap mode, option set, position) inputs. " +
+		"Phase 2 (option dimension, appended): forward groups = 2-4 upstreams configured on ONE real forward plugin (fastforward.NewForward) and queried through it by tag, " +
+		"written scheme x {enable_pipeline, enable_http3, idle_timeout set / unset, also where the scheme ignores them or where they replace the +pipeline / h3 alias} x " +
+		"{dial_addr none / 6 forms} x {socks5 none / per-upstream / plugin-global} x {bootstrap none / per-upstream / plugin-global} x {bootstrap_version per-upstream / inherited} x " +
+		"{so_mark per-upstream / plugin-global}; one focus option per group follows a non-constant presence pattern over the positions (every order), the rest is drawn per member; " +
+		"option singles = the same option variety through upstream.NewUpstream, half of them with a socks5 proxy on a scheme documented to ignore it (udp incl. truncated reply -> TCP retry, quic, h3): " +
+		"the proxy is a listening decoy and no traced connect() / CONNECT request of the upstream may reach it")
 	rep.Assume("strace reports the sockaddr arguments of connect/sendto/sendmsg/sendmmsg faithfully; SO_MARK set through Opt.SoMark labels every socket mosdns opens for a case")
 	rep.Assume("Go's crypto/tls and net/http, quic-go, x/net/proxy and miekg/dns behave as documented (harness servers are built on them)")
 	rep.Assume("a context of 300 ms (unreachable destinations) / 1.5 s (loopback) only bounds how long a case is watched; no verdict depends on elapsed time")
@@ -763,6 +833,7 @@ func main() {
 		}
 	} else {
 		cases = genCases(rep.Seed, rep.Pick(1600, 30000))
+		cases = append(cases, genOptionPhase(rep.Seed, len(cases), rep.Pick(120, 2400), rep.Pick(60, 1200))...)
 	}
 
 	tmp := os.Getenv("VERIF_TMP")
@@ -809,7 +880,7 @@ func main() {
 		}
 	}
 	p := &parent{ca: ca, cases: cases, pending: append(first, last...), busy: map[string]bool{},
-		running: map[int]*caseRes{}, finished: map[int]*caseRes{}, results: map[int]*Result{}}
+		running: map[int]*caseRes{}, finished: map[int]*caseRes{}, results: map[int]*Result{}, groups: map[int]*groupRes{}}
 	p.cond = sync.NewCond(&p.mu)
 
 	tr, childErrTxt, runErr := p.runTraced(tmp, time.Duration(rep.Pick(8, 40))*time.Minute)
@@ -829,6 +900,7 @@ func main() {
 
 func evaluate(p *parent, tr *traceResult) {
 	cases := p.cases
+	allCases = cases
 	rep.Count("shared_loopback_ports_drained_6s_after_unfinished_doh", int64(p.drains))
 	rep.Count("strace_lines", int64(tr.Lines))
 	rep.Count("strace_sockets_created", int64(tr.Sockets))
@@ -869,6 +941,14 @@ func evaluate(p *parent, tr *traceResult) {
 			rep.SetAdd("socket_kinds", ev.Syscall+"/"+ev.Sock)
 			continue
 		}
+		if ev.Mark >= groupMarkBase {
+			// a socket carrying the plugin-global so_mark of a forward group
+			if id, ok := resolveGroupMark(p, ev.Mark-groupMarkBase, ev.Dest); ok {
+				byCase[id] = append(byCase[id], ev)
+				rep.Count("trace_dest_attributed_by_plugin_global_so_mark", 1)
+				continue
+			}
+		}
 		if id, ok := socksAddrs[ev.Dest]; ok {
 			byCase[id] = append(byCase[id], ev)
 			continue
@@ -885,6 +965,8 @@ func evaluate(p *parent, tr *traceResult) {
 		rep.Inconclusive("%d traced destinations on sockets without a case label (first: %s -> %s, cases active then: %v)", n, unattributed[0].Syscall, unattributed[0].Dest, unattributed[0].Window)
 	}
 
+	extraProbs := preJudge(p, tr)
+
 	// loopback addresses that received a misdirected connection of some case
 	polluted := map[netip.AddrPort]bool{}
 	for _, c := range cases {
@@ -892,9 +974,17 @@ func evaluate(p *parent, tr *traceResult) {
 		if res == nil || cr == nil || res.NewErr != "" {
 			continue
 		}
-		for _, d := range foreignDests(c, cr.exp, cr, byCase[c.ID]) {
+		fd := foreignDests(c, cr.exp, cr, byCase[c.ID])
+		for _, d := range fd {
 			if t, ok := localTarget(d); ok {
 				polluted[t] = true
+			}
+		}
+		if len(fd) > 0 && c.GroupKind == "forward" {
+			for _, m := range cases {
+				if m.GroupKind == "forward" && m.Group == c.Group && m.ID != c.ID {
+					skipNames[m.ID] = true
+				}
 			}
 		}
 	}
@@ -920,7 +1010,7 @@ func evaluate(p *parent, tr *traceResult) {
 			continue
 		}
 		for _, ev := range byTarget[cr.exp.Listen] {
-			if ev.Mark != c.ID+1 && ev.Line >= open && ev.Line <= shut {
+			if ev.Mark != markOf(c) && ev.Line >= open && ev.Line <= shut {
 				visited[c.ID] = true
 				if ev.Mark > 0 && ev.Mark-1 < len(cases) {
 					v := cases[ev.Mark-1]
@@ -1028,7 +1118,9 @@ func evaluate(p *parent, tr *traceResult) {
 			rep.SetAdd("reachable_unanswered_errors", trunc(res.ExchErr, 90))
 			rep.SetAdd("reachable_unanswered_cases", fmt.Sprintf("%s dial=%q via=%s tc=%v: %s", c.Addr, c.DialAddr, c.Via, c.TC, trunc(res.ExchErr, 60)))
 		}
-		probs, matched := judge(c, e, res, cr, byCase[c.ID], tr.Own[c.ID+1])
+		probs, matched := judge(c, e, res, cr, byCase[c.ID], tr.Own[markOf(c)])
+		probs = append(probs, extraProbs[c.ID]...)
+		optionEvidence(c, res, cr, len(probs) == 0 && matched > 0)
 		evs := byCase[c.ID]
 		if len(evs) > 12 {
 			evs = evs[:12]
@@ -1061,7 +1153,7 @@ func evaluate(p *parent, tr *traceResult) {
 		}
 		if matched > 0 {
 			nontrivial++
-			rep.Nontrivial(c.Addr + "|" + c.DialAddr + "|" + c.Via + "|" + strconv.Itoa(c.BootVer))
+			rep.Nontrivial(c.Addr + "|" + c.DialAddr + "|" + c.Via + "|" + strconv.Itoa(c.BootVer) + "|" + c.optFP() + "|" + c.Focus + "#" + strconv.Itoa(c.Order))
 			rep.SetAdd("classes_observed", c.classFP())
 			rep.SetAdd("scheme_x_hostform_observed", sn+" "+c.HostClass)
 			k := sn + "/" + c.Via
@@ -1079,7 +1171,11 @@ func evaluate(p *parent, tr *traceResult) {
 	if rep.ReplayFile == "" {
 		need := []string{"strace_inet_destinations", "trace_dest_attributed_by_so_mark", "socks5_connects", "bootstrap_questions",
 			"listener_udp_datagrams", "listener_tcp_accepts", "listener_tls_clienthellos", "listener_quic_clienthellos",
-			"listener_http_requests", "own_connections_judged", "sibling_shared-tlsconfig_later_members_judged", "sibling_same-host_later_members_judged", "unhonourable_address_rejected", "handshake_ok_ip_san_only", "handshake_ok_dns_san_only", "clienthello_sni_equals_expected"}
+			"listener_http_requests", "own_connections_judged", "sibling_shared-tlsconfig_later_members_judged",
+			"sibling_forward_later_members_judged", "forward_members_observed", "forward_members_option_absent_after_sibling_with_option",
+			"forward_members_inheriting_plugin_global_option_observed", "option_singles_observed",
+			"ignored_socks5_upstreams_observed_going_direct", "ignored_socks5_udp_tcp_fallback_observed_direct",
+			"alias_through_option_upstreams_observed", "trace_dest_attributed_by_plugin_global_so_mark", "sibling_same-host_later_members_judged", "unhonourable_address_rejected", "handshake_ok_ip_san_only", "handshake_ok_dns_san_only", "clienthello_sni_equals_expected"}
 		sort.Strings(need)
 		for _, k := range need {
 			if rep.Get(k) == 0 {
